@@ -15,31 +15,39 @@ def _snapshot(tasks, wbss):
 
 def _forest_ok(tasks, wbss, acc, what):
     """C01 / C11 on an arbitrary size: every task listed once under the parent it reports, no task its own ancestor (bounded walk),
-    owner == reachability."""
+    owner == reachability. Each clause is reported once per probe (they belong to different properties)."""
     reach = {}
     for w in wbss:
-        for t in w.tasks:
+        try:
+            members = list(w.tasks)
+        except RecursionError:
+            acc.violation('C05', 'probe/wbs-tasks-does-not-terminate', f'{what}: WBS.tasks recurses without bound', {'probe': what})
+            members = []
+        for t in members:
             reach.setdefault(id(t), []).append(w)
+    done = set()
     for t in tasks:
         p = t.parent
-        if p is not None and sum(1 for c in p.children if c is t) != 1:
+        if 'list' not in done and p is not None and sum(1 for c in p.children if c is t) != 1:
             acc.violation('C01', 'probe/forest-children-parent-mismatch', f'{what}: task {t.id} reports parent {p.id} but is listed there '
                           f'{sum(1 for c in p.children if c is t)} times', {'probe': what})
-            return False
-        seen = 0
-        q = t
-        while q.parent is not None:
-            q = q.parent
-            seen += 1
-            if q is t or seen > len(tasks) + 2:
-                acc.violation('C01', 'probe/forest-ancestor-cycle', f'{what}: task {t.id} is its own ancestor', {'probe': what})
-                return False
+            done.add('list')
+        if 'cycle' not in done:
+            seen = 0
+            q = t
+            while q.parent is not None:
+                q = q.parent
+                seen += 1
+                if q is t or seen > len(tasks) + 2:
+                    acc.violation('C01', 'probe/forest-ancestor-cycle', f'{what}: task {t.id} is its own ancestor', {'probe': what})
+                    done.add('cycle')
+                    break
         owners = reach.get(id(t), [])
-        if (t.wbs is None) != (not owners) or (owners and (len(owners) != 1 or owners[0] is not t.wbs)):
+        if 'owner' not in done and ((t.wbs is None) != (not owners) or (owners and (len(owners) != 1 or owners[0] is not t.wbs))):
             acc.violation('C11', 'probe/owner-mismatch', f'{what}: task {t.id} reports owner {"a WBS" if t.wbs is not None else None} but is '
                           f'reachable from {len(owners)} WBS', {'probe': what})
-            return False
-    return True
+            done.add('owner')
+    return not done
 
 
 def _rejected_cleanly(fn, tasks, wbss, acc, what):
